@@ -3,6 +3,7 @@ import json
 import os
 from tools import vlib
 from tools import cluster
+from tools import daemon
 
 
 def release_cause(events, li):
@@ -121,6 +122,11 @@ def run(ctx):
                 row["p"], row["by"], row["scn"])
         v.fail(name, sig, what, {"scenario": sc, "row": {k: row[k] for k in row if k != "hosts"},
                                  "how": "VERIF_SCENARIO=<scenario json> go test -run TestVerifReplay ./internal/app (overlay)"})
+    # 4. the mode machine (Daemon.tla): the model, every activation of a state handler in those runs, and the
+    #    hand-over scripts (behaviours of the model replayed into real daemons with manager_switchover on)
+    dm = daemon.mc_daemon(ctx)
+    drift = daemon.mode_rows(ctx, v, [x for x in rows if x["kind"] == "mode"], meta["scenarios"], "C03_")
+    ho = daemon.handover(ctx, v, "C03_")
     acts = [x for x in rows if x["kind"] == "act"]
     tolds = [x for x in rows if x["kind"] == "told"]
     promos = [x for x in rows if x["kind"] == "promo" and x["inswitch"]]
@@ -140,6 +146,7 @@ def run(ctx):
         "app_runs": meta["runs"], "activations_with_cluster_wide_actions": sum(a["count"] for a in acts),
         "positive_answers_app": sum(t["count"] for t in tolds), "promotions_in_switchover": len(promos),
         "model_race_variant_violates": bool(race.violations),
+        "mode_machine": dict(dm, scenario_rows=drift, handover=ho),
         "exhaustive": False,
     }
     assumptions = ["E7: a session ends only by server-side expiry/close; no expiry is injected between the server applying a request "
